@@ -50,7 +50,7 @@ fn n_values(len: usize) -> Vec<usize> {
 pub fn run(tier: &str, rep: &mut Report) {
     // unoptimised quick runs take every 17th scalar value above U+3000 (the optimised builds and the thorough tier take all)
     let sparse = cfg!(debug_assertions) && tier != "thorough";
-    rep.bounds.insert("rule".into(), "sources {\"\", \"a\", \"aé\", \"é€😊\", 9-byte ASCII} as str and [u8], ordinary and partial lexers, plus \"a<c>b\" for EVERY Unicode scalar value c (positions 0 and 1, n in 0..=len+1); every lexer position reachable by next() (every char / byte boundary); n in {0..=len+2} U {usize::MAX-len-2..=usize::MAX} U {2^63-1, 2^63, 2^63+1, usize::MAX/2, 2^32}. Oracle: bump(n) returns normally iff end+n <= len in unbounded arithmetic and (str) lands on a char boundary, otherwise it panics; after BOTH outcomes span() is a valid range on boundaries (checked numerically before slice()/remainder() are called). Non-trivial = the expected outcome is a panic or end+n is within +-1 of len.".into());
+    rep.bounds.insert("rule".into(), "sources {\"\", \"a\", \"aé\", \"é€😊\", 9-byte ASCII} as str and [u8], ordinary and partial lexers, plus \"a<c>b\" for EVERY Unicode scalar value c (positions 0 and 1, n in 0..=len+1) and byte sources of every value (all strings of length <= 2, length 3 over 12 UTF-8 edge bytes, invalid UTF-8 included); every lexer position reachable by next() (every char / byte boundary); n in {0..=len+2} U {usize::MAX-len-2..=usize::MAX} U {2^63-1, 2^63, 2^63+1, usize::MAX/2, 2^32}. Oracle: bump(n) returns normally iff end+n <= len in unbounded arithmetic and (str) lands on a char boundary, otherwise it panics; after BOTH outcomes span() is a valid range on boundaries (checked numerically before slice()/remainder() are called). Non-trivial = the expected outcome is a panic or end+n is within +-1 of len.".into());
     let sources: [&str; 5] = ["", "a", "aé", "é€😊", "abcdefghi"];
     std::panic::set_hook(Box::new(|_| {}));
     for src in sources {
@@ -158,7 +158,55 @@ pub fn run(tier: &str, rep: &mut Report) {
             .collect();
         hs.into_iter().map(|h| h.join().expect("scalar sweep worker")).collect()
     });
-    for part in parts {
+    // ---------------- byte sources that are NOT valid UTF-8: every byte string of length <= 2, and
+    // length 3 over the bytes at which UTF-8 changes its mind (lead bytes of every width, truncated
+    // sequences, continuation bytes, 0xff); every position reachable by next(), every n in 0..=len+2.
+    // A byte source has no character structure: whatever the bytes look like, only the length counts.
+    let edge: [u8; 12] = [0x00, 0x41, 0x7f, 0x80, 0xbf, 0xc2, 0xdf, 0xe2, 0xef, 0xf0, 0xf4, 0xff];
+    let mut bsources: Vec<Vec<u8>> = vec![];
+    for a in 0..=255u8 {
+        bsources.push(vec![a]);
+        for b in 0..=255u8 {
+            if !sparse || edge.contains(&a) || edge.contains(&b) || (a as usize * 7 + b as usize) % 13 == 0 {
+                bsources.push(vec![a, b]);
+            }
+        }
+        for b in edge {
+            for c in edge {
+                bsources.push(vec![a, b, c]);
+            }
+        }
+    }
+    let bparts: Vec<Report> = std::thread::scope(|sc| {
+        let chunks: Vec<&[Vec<u8>]> = bsources.chunks(bsources.len() / 16 + 1).collect();
+        let hs: Vec<_> = chunks
+            .into_iter()
+            .map(|chunk| {
+                sc.spawn(move || {
+                    let mut rep = Report::new("C15", "byte sweep", "");
+                    for b in chunk {
+                        for pos in 0..=b.len() {
+                            for n in 0..=b.len() + 2 - pos {
+                                let mut lex: Lexer<CB> = Lexer::new(b.as_slice());
+                                for _ in 0..pos {
+                                    lex.next();
+                                }
+                                let want_ok = pos + n <= b.len();
+                                let r = catch_unwind(AssertUnwindSafe(|| lex.bump(n)));
+                                check(&mut rep, "[u8] (every byte value)", b, pos, n, want_ok, r.is_ok(), lex.span().start, lex.span().end, |i| i <= b.len(), || {
+                                    let sp = lex.span();
+                                    lex.slice().len() == sp.end - sp.start && lex.remainder().len() == b.len() - sp.end
+                                });
+                            }
+                        }
+                    }
+                    rep
+                })
+            })
+            .collect();
+        hs.into_iter().map(|h| h.join().expect("byte sweep worker")).collect()
+    });
+    for part in parts.into_iter().chain(bparts) {
         let room = 12usize.saturating_sub(rep.violations.len());
         let mut part = part;
         part.violations.truncate(room);
